@@ -98,6 +98,18 @@ def nat_filter_process_resource(h):
         h.check(got == want and all(a is b for a, b in zip(got, want)), 'filter_rows.process_resource', rows, want, got)
 
 
+def replay_filter_process_resource(h, cex, obligation):
+    """the solver's counterexample of a failed filter obligation: the rows of the stream and the graph of `condition`"""
+    from contracts import replayers as R
+    from dataflows.processors.filter_rows import process_resource
+    rows = R.rows(cex, 'rows.row')
+    cond, graph = R.func(cex, 'condition')
+    sp = h.spec(SPEC)
+    want = [r for row in rows for r in sp['filter_step'](row, cond)]
+    got = h.run(lambda: list(process_resource(iter([dict(r) for r in rows]), cond)))
+    h.check(got[0] == 'ok' and got[1] == want, 'dataflows/processors/filter_rows.py::process_resource', dict(rows=rows, condition=graph), want, got[:2])
+
+
 def sym_old_style(vc):
     from pyvc.api import SpecModule, real_function, sym_row, check, PyList
     from pyvc.symex import PyExc
@@ -133,16 +145,26 @@ def sym_old_style(vc):
 
 def nat_old_style(h):
     from dataflows.processors.filter_rows import old_style_conditions
+    from dataflows import Flow, filter_rows
     sp = h.spec(SPEC)
     keys = ['a', 'b', 'c']
-    for _ in range(h.n()):
-        row = h.row(keys, total=h.rng.random() < 0.7)
-        equals = [h.row(keys) for _ in range(h.rng.randint(0, 2))]
-        not_equals = [h.row(keys) for _ in range(h.rng.randint(0, 2))]
+    small = [0, 1, 2, None, 'x']          # a small value domain: conditions and cells collide often
+    for i in range(h.n(150, 1500)):
+        vals = small if i % 2 == 0 else None
+        row = h.row(keys, vals=vals, total=h.rng.random() < 0.7)
+        equals = [h.row(keys, vals=vals) for _ in range(h.rng.randint(0, 3))]
+        not_equals = [h.row(keys, vals=vals) for _ in range(h.rng.randint(0, 3))]
         want = h.run(lambda: sp['old_style'](row, equals, not_equals))
         got = h.run(lambda: old_style_conditions(equals, not_equals)(row))
-        ok = (want[0] == got[0]) and (bool(want[1]) == bool(got[1]) if want[0] == 'ok' else want[1] == got[1])
-        h.check(ok, 'filter_rows.old_style_conditions.func', (row, equals, not_equals), want[:2], got[:2])
+        ok = (want[0] == got[0] == 'ok' and bool(want[1]) == bool(got[1])) or (want[0] == got[0] == 'exc' and want[1] == got[1])
+        h.check(ok, 'dataflows/processors/filter_rows.py::old_style_conditions.func', (row, equals, not_equals), want[:2], got[:2])
+    # several condition objects naming the SAME field (a value list written as one object per value), end to end
+    rows = [{'a': v, 'i': i} for i, v in enumerate([0, 1, 2, 3, 1, 0])]
+    for eq, ne in (([{'a': 1}, {'a': 2}], []), ([], [{'a': 1}, {'a': 2}]), ([], [{'a': 1}, {'a': 1}]), ([{'a': 0}], [{'a': 0}, {'a': 3}]),
+                   ([], [{'a': 1}]), ([{'a': 1}, {'a': 1}], [])):
+        want = [r['i'] for r in rows if any(r['a'] == o['a'] for o in eq) or any(r['a'] != o['a'] for o in ne)]
+        got = h.run(lambda: [r['i'] for r in Flow([dict(r) for r in rows], filter_rows(equals=eq, not_equals=ne)).results(on_error=None)[0][0]])
+        h.check(got[0] == 'ok' and got[1] == want, 'dataflows/processors/filter_rows.py::old_style_conditions.func', (eq, ne), want, got[:2])
 
 
 def sym_filter_func(vc):
@@ -562,9 +584,11 @@ def nat_unpivot_flow(h):
         h.check(got[0] == 'ok' and got[1] == want, 'dataflows/processors/unpivot.py::unpivot.func', (cols, rows, specs), want, got[:2])
 
 
+from contracts import C10 as _K10   # noqa: E402  (ResourceMatcher: the contract every selector-taking step is checked against)
+
 ITEMS = [
-    Item('filter_rows.process_resource', sym_filter_process_resource, [('differential', nat_filter_process_resource)],
-         'dataflows/processors/filter_rows.py::process_resource'),
+    _K10._mk_matcher_item(),
+    Item('filter_rows.process_resource', sym_filter_process_resource, [('differential', nat_filter_process_resource)], fnkey='dataflows/processors/filter_rows.py::process_resource', replay=replay_filter_process_resource),
     Item('filter_rows.old_style_conditions', sym_old_style, [('differential', nat_old_style)],
          'dataflows/processors/filter_rows.py::old_style_conditions.func'),
     Item('filter_rows.func', sym_filter_func, [], 'dataflows/processors/filter_rows.py::filter_rows.func'),
